@@ -868,7 +868,7 @@ func verifC24JudgeDecode(data []byte) (string, error) {
 // JSON that reads back as the same message.
 func TestVerifC24DecodeHostile(t *testing.T) {
 	kit.Check(t, "C24", func(rt *rapid.T, k *kit.Case) {
-		kind := rapid.SampledFrom([]string{"envelope", "envelope", "envelope", "mutated valid", "mutated valid", "json value", "bytes", "two values"}).Draw(rt, "hostileKind")
+		kind := rapid.SampledFrom([]string{"envelope", "envelope", "perturbed fields", "perturbed fields", "perturbed fields", "mutated valid", "mutated valid", "json value", "bytes", "two values"}).Draw(rt, "hostileKind")
 		var data []byte
 		switch kind {
 		case "envelope":
@@ -885,6 +885,34 @@ func TestVerifC24DecodeHostile(t *testing.T) {
 			for i := 0; i < n; i++ {
 				data, _ = kit.Mutate(rt, data)
 			}
+		case "perturbed fields":
+			// a valid client message with 1-2 members replaced by arbitrary JSON values (document stays valid JSON)
+			r := verifC24Request(rt)
+			if r.params == nil || r.params["__null__"] == true {
+				r.params = map[string]any{}
+			}
+			n := rapid.IntRange(1, 2).Draw(rt, "perturbations")
+			for i := 0; i < n; i++ {
+				keys := make([]string, 0, len(r.params)+2)
+				for key := range r.params {
+					keys = append(keys, key)
+				}
+				sort.Strings(keys)
+				keys = append(keys, rapid.SampledFrom(verifC24Vocabulary).Draw(rt, "newKey"))
+				key := rapid.SampledFrom(keys).Draw(rt, "perturbKey")
+				if rapid.IntRange(0, 4).Draw(rt, "dropKey") == 0 {
+					delete(r.params, key)
+				} else {
+					r.params[key] = json.RawMessage(verifC24JSONValue(rt, 2))
+				}
+			}
+			switch rapid.IntRange(0, 5).Draw(rt, "idPerturb") {
+			case 0:
+				r.id = ""
+			case 1:
+				r.id = verifC24ID().Draw(rt, "otherID")
+			}
+			data = verifC24ClientJSON(rt, r)
 		case "json value":
 			data = []byte(verifC24JSONValue(rt, 3))
 		case "bytes":
@@ -932,5 +960,4 @@ func TestVerifC24KnownShapes(t *testing.T) {
 		k.Sample(func() any { return c + " → " + outcome })
 		col.Commit(k)
 	}
-	_ = sort.Strings
 }
